@@ -354,11 +354,44 @@ Definition active (h : hyb) : bool :=
   match kind h with
   | INone => false
   | IMerc => hmode h =? 1
-  | ITrace => (hmode h =? 1) || (hmode h =? 3)
+  | ITrace => hmode h =? 1      (* Kepler step; in REB_TRACE_MODE_FULL the map is not an index list: see trace_full_* *)
   end.
 Definition hyb_ok (s : state) (h : hyb) : Prop :=
   vmap (sN s) (emap h) (eN h) /\ sN s <= length (emap h) /\
   (kind h = ITrace -> length (emap h) * length (emap h) <= length (ks h)).
+
+(* zero fill of the new column and row *)
+Lemma ks_zero_spec : forall cnt i n k ob k' ob', i + cnt = S n -> S n * S n <= length k ->
+  ks_zero cnt i (S n) n k ob = (k', ob') ->
+  ob' = ob /\ length k' = length k /\
+  (forall a b, a < n -> b < n -> nth (a * S n + b) k' 0%Z = nth (a * S n + b) k 0%Z) /\
+  (forall q, nth q k' 0%Z = nth q k 0%Z \/ nth q k' 0%Z = 0%Z) /\
+  (forall t, i <= t < i + cnt -> nth (t * S n + n) k' 0%Z = 0%Z /\ nth (n * S n + t) k' 0%Z = 0%Z).
+Proof.
+  induction cnt; intros i n k ob k' ob' Hi Hl H; cbn [ks_zero] in H.
+  - inversion H; subst. split; [auto|]. split; [auto|]. split; [auto|]. split; [auto|]. intros; lia.
+  - assert (D1 : i * S n + n < S n * S n) by nia. assert (D2 : n * S n + i < S n * S n) by nia.
+    rewrite upd_length in H. rewrite !chk_in in H by lia. rewrite !Nat.add_0_r in H.
+    apply IHcnt in H; try (rewrite !upd_length); try lia.
+    destruct H as (-> & H2 & H3 & H4 & H5). rewrite !upd_length in H2. split; [auto|]. split; [auto|]. split; [|split].
+    + intros a b Ha Hb. rewrite H3 by auto.
+      rewrite !nth_upd_neq; auto.
+      * intro E. apply lin_inj in E; lia.
+      * intro E. apply lin_inj in E; lia.
+    + intros q. destruct (H4 q) as [E|E]; [|auto]. rewrite E.
+      destruct (Nat.eq_dec q (n * S n + i)) as [->|]; [right; apply nth_upd_eq; rewrite upd_length; lia|].
+      rewrite nth_upd_neq by auto.
+      destruct (Nat.eq_dec q (i * S n + n)) as [->|]; [right; apply nth_upd_eq; lia|].
+      left. now rewrite nth_upd_neq by auto.
+    + intros t Ht. destruct (Nat.eq_dec t i) as [->|]; [|apply H5; lia].
+      assert (Z1 : nth (i * S n + n) (upd (upd k (i * S n + n) 0%Z) (n * S n + i) 0%Z) 0%Z = 0%Z).
+      { destruct (Nat.eq_dec (i * S n + n) (n * S n + i)) as [E|NE].
+        - rewrite E. apply nth_upd_eq. rewrite upd_length. lia.
+        - rewrite nth_upd_neq by auto. apply nth_upd_eq. lia. }
+      assert (Z2 : nth (n * S n + i) (upd (upd k (i * S n + n) 0%Z) (n * S n + i) 0%Z) 0%Z = 0%Z)
+        by (apply nth_upd_eq; rewrite upd_length; lia).
+      split; [destruct (H4 (i * S n + n)) as [E|E]|destruct (H4 (n * S n + i)) as [E|E]]; congruence.
+Qed.
 
 Lemma extend_length : forall l n, length l < n -> length (extend l n) = n.
 Proof. intros. unfold extend. rewrite app_length, repeat_length. lia. Qed.
@@ -394,7 +427,7 @@ Proof.
     rewrite !chk_in by lia. split; [|repeat split; auto; lia].
     unfold hyb_ok. cbn [emap eN ks kind]. rewrite upd_length, Hn. split; [|split; [lia|intros; congruence]].
     apply emap_add_valid with (m := emap h); auto. lia.
-  - destruct ((hmode h =? 1) || (hmode h =? 3)) eqn:EM; [|discriminate]. rewrite Hn in *. rewrite !E1 in Hh.
+  - destruct ((hmode h =? 1) || (hmode h =? 3)) eqn:EM; [|lia]. rewrite Hn in *. rewrite !E1 in Hh. rewrite Ha in Hh.
     set (grow := length (emap h) <? S (sN s)) in *.
     set (k0 := if grow then extend (ks h) (S (sN s) * S (sN s)) else ks h) in *.
     set (m := if grow then extend (emap h) (S (sN s)) else emap h) in *.
@@ -413,7 +446,9 @@ Proof.
     destruct Lm as (Lm1 & Lm2 & Lm3). destruct Lk as [Lk1 Lk2]. destruct V as (V1 & V2 & V3).
     destruct (ks_grow (sN s) (sN s) k0 (hoob h)) as [k1 ob1] eqn:EG.
     apply ks_grow_exact in EG; auto. destruct EG as (-> & LG & _).
-    destruct (ks_mark (eN h - 1) 1 (S (sN s)) (sN s) m k1 (hoob h)) as [k2 ob2] eqn:EMk.
+    destruct (ks_zero (S (sN s)) 0 (S (sN s)) (sN s) k1 (hoob h)) as [kz obz] eqn:EZ.
+    apply ks_zero_spec in EZ; try lia. destruct EZ as (-> & LZ & _).
+    destruct (ks_mark (eN h - 1) 1 (S (sN s)) (sN s) m kz (hoob h)) as [k2 ob2] eqn:EMk.
     apply ks_mark_safe in EMk; try lia.
     2:{ intros t Ht. change 0%Z with zd. rewrite Lm2 by lia. apply V3. lia. }
     destruct EMk as [-> LM]. subst h'. cbn [hoob emap eN ks kind]. rewrite chk_in by lia.
@@ -462,12 +497,37 @@ Proof.
     rewrite EL0 in H. inversion H; subst; clear H. cbn [hoob emap eN ks kind].
     split; [|repeat split; auto].
     unfold hyb_ok. cbn [emap eN ks kind]. rewrite HNs. split; [exact VM|split; [lia|intros; congruence]].
-  - destruct ((hmode h =? 1) || (hmode h =? 3)) eqn:EM; [|discriminate].
-    specialize (HK eq_refl).
+  - destruct ((hmode h =? 1) || (hmode h =? 3)) eqn:EM; [|lia].
+    specialize (HK eq_refl). cbv zeta in H. rewrite Ha in H. cbn [andb] in H.
+    replace (0 <=? Z.of_nat p)%Z with true in H by lia.
     destruct (ks_rows (sN s - 1) 0 (sN s - 1) (sN s) (Z.to_nat z) (ks h) (hoob h)) as [k ob''] eqn:EKS.
     assert (HS : sN s = S (sN s - 1)) by lia. rewrite HS in EKS at 3.
     apply ks_remove_exact in EKS; [|rewrite <- HS; nia]. destruct EKS as (-> & LK & _).
     inversion H; subst; clear H. cbn [hoob emap eN ks kind].
     split; [|repeat split; auto].
     unfold hyb_ok. cbn [emap eN ks kind]. rewrite HNs. split; [exact VM|split; [lia|intros; lia]].
+Qed.
+
+(* REB_TRACE_MODE_FULL (pericentre step): the encounter map is the flag array of the pre-timestep check; a
+   removal or an addition leaves it, encounter_N and encounter_N_active alone (no unsigned wrap-around) *)
+Theorem trace_full_remove_map_untouched : forall s h z keep s' h' r, kind h = ITrace -> hmode h = 3 ->
+  hremove s h z keep = (s', h', r) -> emap h' = emap h /\ eN h' = eN h /\ eNact h' = eNact h.
+Proof.
+  intros s h z keep s' h' r HK HM H. unfold hremove in H. rewrite HK, HM in H. cbn [Nat.eqb orb andb] in H.
+  destruct ((Z.of_nat (sN s) <=? z) || (z <? 0))%Z; [inversion H; auto|].
+  destruct (negb (sNvar s =? 0)); [inversion H; auto|].
+  destruct ((keep || hybrid_kind h) && tree s); [inversion H; auto|].
+  destruct (remove_idx s z (keep || hybrid_kind h)) as [s1 r1]. cbv zeta in H.
+  destruct (ks_rows _ _ _ _ _ _ _) as [k ob]. inversion H; subst. cbn. auto.
+Qed.
+Theorem trace_full_add_map_untouched : forall s h p d s' h', kind h = ITrace -> hmode h = 3 ->
+  hadd s h p d = (s', h') ->
+  eN h' = eN h /\ eNact h' = eNact h /\ firstn (length (emap h)) (emap h') = emap h.
+Proof.
+  intros s h p d s' h' HK HM H. unfold hadd in H. rewrite HK, HM in H. cbn [Nat.eqb orb] in H. cbv zeta in H.
+  destruct (ks_grow _ _ _ _) as [k1 ob1]. destruct (ks_zero _ _ _ _ _ _) as [kz obz].
+  inversion H; subst. cbn [eN eNact emap]. split; auto. split; auto.
+  destruct (length (emap h) <? S (sN s)).
+  - unfold extend. rewrite firstn_app, Nat.sub_diag, firstn_all. cbn. now rewrite app_nil_r.
+  - apply firstn_all.
 Qed.
